@@ -8,8 +8,10 @@ TIE_B = ("tie: hand-written Gallina mirror (coq/theories/Model) checked against 
          "correspondence run of this check (harness/impl_run -> ocaml/driver on the extracted model); "
          "extraction uses ExtrOcamlBasic only (bool, option, list, prod, unit, sumbool, sumor)")
 ORACLE = "search: Spec-level oracles (extracted from coq/theories/Spec) evaluated on the implementation's outputs"
-OUTSIDE = ("outside the model: usize wrap-around / indices near 2^32..2^64 (model uses unbounded nat), native stack "
-           "exhaustion, allocation failure, timing")
+OUTSIDE = ("outside the model: usize wrap-around for indices near 2^64 (the model uses unbounded nat; for apply / the "
+           "contractions of the reducer the generated *_safe predicates and C02_machine_arithmetic show that no operation "
+           "overflows while max index + binder depth + 1 < 2^64; Display, the parser and the conversions are exercised with "
+           "large indices only), native stack exhaustion, allocation failure, timing")
 
 TIE_R = ("tie (reducer): coq/theories/Gen/ReductionSrc.v - update_free_variables, _apply, apply, eval, is_reducible, the "
          "seven beta_* traversals and the dispatch of reduce - is REGENERATED from /repo/src/reduction.rs on every run by "
@@ -43,7 +45,10 @@ PROPS = {
                      "(validated on every run by differential testing of its output)", OUTSIDE],
         explanation=("Theorems: apply_m (Abs b) a = subst 1 a b = inst (beta_sub a) b for all b, a (two independent "
                      "definitions of capture-avoiding substitution); non-abstractions yield NotAbs with the receiver "
-                     "unchanged; free variables of the result come from the inputs; UD inert.")),
+                     "unchanged; free variables of the result come from the inputs; UD inert.  Machine arithmetic: the "
+                     "translator also emits apply_safe / apply_rec_safe / update_free_variables_safe (no usize addition "
+                     "reaches W, no subtraction goes below 0, same recursion as the functions); proved: they hold for any "
+                     "word size W whenever max index of the argument + binder depth of the receiver + 1 < W.")),
     "C18": dict(
         suites=["termops"], oracle_re=r"oracle:C18:",
         rule=("every term up to 6 (quick) / 7 (thorough) constructors over indices 0..3 plus random terms; all pairs of "
